@@ -191,6 +191,7 @@ def check(prop, tier="quick", seed=0, jobs=None, replay=None, repo=None, quiet=F
             for i in hung:
                 spec = dict(specs[i])
                 spec["case_timeout"] = 150
+                spec["max_hangs"] = 1
                 r2, p2, _ = run_workers(prop, [spec], 1, timeout, workdir + "-hang", repo)
                 if r2[0] is not None and "hang" in r2[0]["violations"]:
                     confirmed += 1
